@@ -119,7 +119,7 @@ def _build(case, tmp):
         ref = sf.Frame.from_concat_items(((f.name, f) for f in frames), axis=axis)
     else:
         ref = sf.Frame.from_concat(frames, axis=axis)
-    quilt = sf.Quilt(bus, axis=axis, retain_labels=case['retain'])
+    quilt = sf.Quilt(bus, axis=axis, retain_labels=case['retain'], deepcopy_from_bus=bool(case.get('size', len(case['members'])) % 2))
     return quilt, ref, bus, frames
 
 
